@@ -779,3 +779,11 @@ def linform(e, lets=None, depth=0):
 def lin_eq(a, b):
     keys = set(a) | set(b)
     return all(a.get(k, 0) == b.get(k, 0) for k in keys)
+
+
+def prange_contains(p, v):
+    """does the range pattern `lo..=hi` / `lo..hi` (HIR `PRange`, field `end` = Included | Excluded) contain v? None if not literal"""
+    lo, hi = lit_value(p.get("lo") or {}), lit_value(p.get("hi") or {})
+    if lo is None or hi is None or type(lo) is not type(hi) or type(v) is not type(lo):
+        return None
+    return (lo <= v <= hi) if "Included" in (p.get("end") or "Included") else (lo <= v < hi)
